@@ -15,9 +15,10 @@ from . import pdu_decode as DEC
 
 
 class Run:
-    def __init__(self, entry, tag, it, env, result, root=None, N=None, allowed=("ValueError",), independent=True):
+    def __init__(self, entry, tag, it, env, result, root=None, N=None, allowed=("ValueError",), independent=True, partial=False):
         self.entry, self.tag, self.it, self.env, self.result = entry, tag, it, env, result
         self.root, self.N, self.allowed, self.independent = root, N, allowed, independent
+        self.partial = partial      # decodes only a leading part of the unit (header decoders): N bounds its reads, not its input
 
 
 def q(P, short):
@@ -123,7 +124,7 @@ def g_cfdp_header(P, tier):
         yield Run("cfdp.pdu.header.PduHeader.unpack", f"E={E},S={S}", it, env, r, "data", C(CF.header_len(E, S)), ax)
         it, env, r = cm(P, "cfdp.pdu.file_directive.FileDirectivePduBase", "unpack", [DATA], concrete={("data", 3): CF.octet3(E, S)})
         H = CF.header_len(E, S)
-        yield Run("cfdp.pdu.file_directive.FileDirectivePduBase.unpack", f"E={E},S={S}", it, env, r, "data", binop("+", CF.data_field_len_term(DATA), C(H)), ax)
+        yield Run("cfdp.pdu.file_directive.FileDirectivePduBase.unpack", f"E={E},S={S}", it, env, r, "data", binop("+", CF.data_field_len_term(DATA), C(H)), ax, partial=True)
         it, env, r = cm(P, "cfdp.pdu.helper.PduFactory", "pdu_directive_type", [DATA], concrete={("data", 0): CF.octet0(0), ("data", 3): CF.octet3(E, S)})
         yield Run("cfdp.pdu.helper.PduFactory.pdu_directive_type", f"E={E},S={S}", it, env, r, "data", None, ax, independent=False)
     for code in (0x20, 0x25, 0x50, 0x66):
